@@ -11,10 +11,14 @@ var registry = map[string]func() *check.Property{
 	"C02": C02,
 	"C03": C03,
 	"C05": C05,
+	"C06": C06,
 	"C07": C07,
 	"C08": C08,
 	"C09": C09,
+	"C10": C10,
+	"C11": C11,
 	"C12": C12,
+	"C13": C13,
 	"C14": C14,
 	"C15": C15,
 }
